@@ -39,6 +39,9 @@ func MaxSat(c Case) (out Case) {
 	}()
 	cons := objs(c, "cons")
 	n := num(c, "n")
+	if _, ok := c["ts"]; !ok {
+		out["ts"], out["m"], out["withTop"] = []string{}, 0, false
+	}
 	switch str(c, "route") {
 	case "api":
 		var cs []maxsat.Constr
@@ -116,6 +119,9 @@ func MaxSat(c Case) (out Case) {
 		}
 		cfg := obj(c, "cfg")
 		text := render.WCNF(n, num(c, "top"), wc, render.NewLayout(num(cfg, "layout"), int64(num(cfg, "layoutSeed"))))
+		if given := str(c, "text"); given != "" { // a text enumerated by FormatsGen.tla, fed as it is
+			text = given
+		}
 		out["text"] = text
 		for _, e := range objs(c, "ev") {
 			r := copyCase(e)
